@@ -164,3 +164,59 @@ package mapping
 //@   call Contains#1: assert arg_str == Repr(val)
 //@   ensures implies(result == nil && len(options) > 0, oc)
 //@   modifies nothing
+
+// same-kind values and numbers: the options check (and, inside the callees, the range check) happens on the very value
+// and option set handed on to the setter
+//@ func (u *Unmarshaler) processFieldPrimitive
+//@   property C08
+//@   ghost at entry: vok = false
+//@   ghost at after validateValueInOptions#0: vok = (ret == nil)
+//@   call validateValueInOptions#*: assert arg_val == mapValue && implies(opts != nil, sameSlice(arg_options, opts.Options)) && implies(opts == nil, len(arg_options) == 0)
+//@   call fillWithSameType#*: assert vok && arg_mapValue == mapValue && arg_opts == opts
+//@   call processFieldPrimitiveWithJSONNumber#*: assert arg_opts == opts && boxed(arg_v) == mapValue
+
+//@ func fillWithSameType
+//@   property C08
+//@   ghost at entry: rok = false
+//@   ghost at after validateValueRange#0: rok = (ret == nil)
+//@   call validateValueRange#*: assert arg_mapValue == mapValue && arg_opts == opts
+//@   call setSameKindValue#*: assert rok && arg_value == mapValue
+//@   call SetValue#*: assert rok
+
+//@ func validateAndSetValue
+//@   property C08
+//@   ghost at entry: rok = false
+//@   ghost at after convertTypeFromString#0: cv = ret0
+//@   ghost at after validateValueRange#0: rok = (ret == nil)
+//@   call validateValueRange#*: assert arg_mapValue == cv && arg_opts == opts
+//@   call setMatchedPrimitiveValue#*: assert rok && arg_v == cv && arg_kind == kind
+
+//@ func fillPrimitive
+//@   property C08
+//@   ghost at entry: rok = false
+//@   ghost at after validateJsonNumberRange#0: rok = (ret == nil)
+//@   call validateJsonNumberRange#*: assert boxed(arg_v) == mapValue && arg_opts == opts
+//@   call validateAndSetValue#*: assert boxed(arg_str) == mapValue && arg_opts == opts
+//@   call setValueFromString#*: assert rok
+
+// values taken from a string (form/path/header parameters, `string` option): declared options are checked against the
+// text of the value before anything is filled in
+//@ func (u *Unmarshaler) processNamedFieldWithValueFromString
+//@   property C08
+//@   ghost at entry: ook = false
+//@   ghost at after Contains#0: ook = ret
+//@   call options#0: assert arg_recv == opts
+//@   call Contains#*: assert sameSlice(arg_list, options)
+//@   call fillPrimitive#*: assert (len(options) == 0 || ook) && arg_mapValue == mapValue && arg_opts == opts
+
+// environment values go through the same options check, then through the number path (range check) unless the field is
+// a bool, a duration or a string
+//@ func (u *Unmarshaler) processFieldWithEnvValue
+//@   property C08
+//@   ghost at entry: vok = false
+//@   ghost at after validateValueInOptions#0: vok = (ret == nil)
+//@   call validateValueInOptions#*: assert boxed(arg_val) == boxed(envVal) && implies(opts != nil, sameSlice(arg_options, opts.Options)) && implies(opts == nil, len(arg_options) == 0)
+//@   call SetBool#*: assert vok
+//@   call SetString#*: assert vok && arg_x == envVal
+//@   call fillDurationValue#*: assert vok && arg_dur == envVal
+//@   call processFieldPrimitiveWithJSONNumber#*: assert vok && arg_opts == opts
